@@ -178,7 +178,16 @@ pub fn resolve_constant(
     }
 
 
-    if symbol.value != prev_value
+    // A change in size alone is also a change (`sizeof` and
+    // concatenation read it), but integer equality ignores sizes
+    let size_changed = match (&symbol.value, &prev_value)
+    {
+        (expr::Value::Integer(new), expr::Value::Integer(prev)) =>
+            new.size != prev.size,
+        _ => false,
+    };
+
+    if symbol.value != prev_value || size_changed
     {
         // On the final iteration, unstable guesses become errors
         if ctx.is_last_iteration
